@@ -214,6 +214,19 @@ impl CodeFormatter {
                 let token_type = std::mem::discriminant(token);
                 let prev_token_type = std::mem::discriminant(prev_token);
 
+                // Statements that share a source line must not end up glued together: supply the line break the
+                // source lacks, so that what follows treats them like statements on separate lines.
+                // (A label may share its line with the statement that follows it.)
+                let on_same_line = !matches!(token, Token::Eof(_))
+                    && !matches!(prev_token, Token::Label { block: None, .. })
+                    && !token
+                        .trivia()
+                        .map(|t| t.iter().any(|triv| matches!(triv, Trivia::NewLine)))
+                        .unwrap_or(false);
+                if on_same_line {
+                    self.push("\n");
+                }
+
                 if (token_type == prev_token_type && newline_if_same)
                     || (token_type != prev_token_type && newline_if_diff)
                 {
